@@ -52,6 +52,9 @@ pub struct Cfg {
     /// one large datagram cut into thousands of 8..24 byte fragments that
     /// arrive shuffled: hundreds of simultaneous sections
     pub confetti: bool,
+    /// well over a thousand small datagrams whose first fragments all arrive
+    /// before any second fragment: thousands of simultaneous streams
+    pub stampede: bool,
 }
 
 pub fn gen_cfg(mode: &str, c: &mut Rng) -> Cfg {
@@ -99,7 +102,24 @@ pub fn gen_cfg(mode: &str, c: &mut Rng) -> Cfg {
         stall: on(c) && c.chance(1, 2),
         partition: on(c) && c.chance(1, 2),
         confetti: !tiny && mode != "bulk" && c.chance(1, 120),
+        stampede: false,
     };
+    if !tiny && mode != "bulk" && !cfg.confetti && c.chance(1, 150) {
+        cfg.stampede = true;
+        cfg.hosts = 4;
+        cfg.datagrams_per_host = c.usize_range(300, 450);
+        cfg.max_frags = 2;
+        cfg.big_payload_permille = 0;
+        cfg.p_dup = 0.0;
+        cfg.p_retransmit = 0.0;
+        cfg.p_byz = 0.0;
+        cfg.p_id_reuse = 0.0;
+        cfg.background = 0.0;
+        cfg.evict = false;
+        cfg.restart = false;
+        cfg.checkpoint = false;
+        cfg.twins = false;
+    }
     if cfg.confetti {
         cfg.hosts = 1;
         cfg.datagrams_per_host = 1;
@@ -480,7 +500,9 @@ impl World {
                 _ => self.wl.u32(),
             };
             for n in 0..self.cfg.datagrams_per_host {
-                let len = if self.cfg.confetti {
+                let len = if self.cfg.stampede {
+                    self.wl.usize_range(9, 40)
+                } else if self.cfg.confetti {
                     self.wl.usize_range(9_000, 40_000)
                 } else if self.wl.below(1000) < self.cfg.big_payload_permille {
                     // up to the largest datagram the 13-bit offset + 16-bit length allow
@@ -689,6 +711,23 @@ impl World {
             self.wl.shuffle(&mut list);
         }
         let byz = d.byzantine && faults_on;
+        if self.cfg.stampede && !in_heal && list.len() >= 2 {
+            // first fragment now, the rest only after every datagram of the
+            // run has sent its first fragment
+            let late = list.split_off(1);
+            for f in &list {
+                self.transmit(d.host, f, true, faults_on, stats);
+            }
+            let hold = 400 * (self.cfg.datagrams_per_host as u64 + 2) + 2 * self.cfg.jitter_us + 50;
+            let saved = self.now;
+            self.now = saved.max(hold);
+            for f in &late {
+                self.transmit(d.host, f, true, faults_on, stats);
+            }
+            self.now = saved;
+            stats.inc("probe.stampede_datagrams");
+            return;
+        }
         for f in &list {
             self.transmit(d.host, f, true, faults_on, stats);
             self.now += self.wl.range(0, 3);
@@ -807,7 +846,7 @@ impl World {
         let mut events = 0usize;
         while let Some(Reverse(item)) = self.q.pop() {
             events += 1;
-            if events > if self.cfg.confetti { 8 * MAX_EVENTS } else { MAX_EVENTS } {
+            if events > if self.cfg.confetti || self.cfg.stampede { 8 * MAX_EVENTS } else { MAX_EVENTS } {
                 stats.inc("netsim.event_cap_hit");
                 break;
             }
@@ -1124,6 +1163,9 @@ pub fn tally(stats: &mut Stats, i: &StepInfo) {
             }
             if i.grew {
                 stats.inc("probe.stream_grew_beyond_initial_capacity");
+            }
+            if i.stream_1025 {
+                stats.inc("probe.more_than_1024_simultaneous_streams");
             }
             if let Some(d) = i.sibling_dim {
                 stats.inc(&format!("probe.active_streams_differ_only_in_{d}"));
